@@ -185,6 +185,15 @@ def gen_config(rng):
     tree = ac.gen_tree(rng)
     for c in tree["commands"]:
         _extend_cmd(rng, c, 0, c["default"])
+    # a SUB-command may be called `help` (or have it as an alias): `<path> --help` is still the page of <path>
+    if rng.random() < 0.15:
+        parents = [c for c in tree["commands"] if c["subs"]]
+        if parents:
+            s = rng.choice(rng.choice(parents)["subs"])
+            if rng.random() < 0.6:
+                s["name"] = "help"
+            else:
+                s["aliases"] = list(s["aliases"]) + ["help"]
     r = rng.random()
     meta = {"name": rng.choice(["app", "app", "my-tool"]), "version": rng.choice(["1.2.3", "1.2.3", None]),
             "help": None if r < 0.5 else (rng.choice(SHORT) if r < 0.7 else _long_text(rng, False) + "\n\n" + _long_text(rng, False))}
